@@ -185,15 +185,25 @@ def chamfer_oracle(c):
 def c16_oracle(c):
     """thread mesh: starts at z = 0, radii within [d_min/2, d_maj/2], ring k at angle +-k*360/segments, one pitch per revolution"""
     op, a, t = c['op'], c['args'], c['tree']
-    if t is None or op not in (500, 501, 513) : return None
+    if t is None or op not in (500, 501, 502, 503, 513) : return None
     if (op == 500 and a[6] != 0.0) or (op == 501 and a[4] != 0.0) or (op == 513 and a[8] != 0.0): return None
     if op == 513: d_min, d_maj, pitch, length, seg, left = a[0], a[1], a[2], a[3], int(a[4]), a[7] != 0.0
     else:
         row = c.get('row')
         if row is None: return None
-        pitch = row[0]; d_maj = row[1] if op == 500 else row[2]; d_min = d_maj - 2 * 5 / 8 * (math.sqrt(3) / 2 * pitch)
-        length, seg, left = a[1], int(a[2]), (a[5] != 0.0 if op == 500 else a[3] != 0.0)
-    if t['op'] != 'union' or t['children'][0]['op'] != 'polyhedron': return fail('thread_tree_shape', args=a)
+        pitch = row[0]; d_maj = row[1] if op in (500, 502) else row[2]; d_min = d_maj - 2 * 5 / 8 * (math.sqrt(3) / 2 * pitch)
+        if op == 500: length, seg, left = a[1], int(a[2]), a[5] != 0.0
+        elif op == 501: length, seg, left = a[1], int(a[2]), a[3] != 0.0
+        elif op == 502: length, seg, left = a[1], int(a[3]), a[6] != 0.0
+        else: length, seg, left = a[1] + 20.0, int(a[2]), a[4] != 0.0
+    def find_thread(n):
+        if n['op'] == 'union' and len(n['children']) == 2 and n['children'][0]['op'] == 'polyhedron' and n['children'][1]['op'] == 'polyhedron': return n
+        for ch in n['children']:
+            r = find_thread(ch)
+            if r: return r
+        return None
+    t = find_thread(t)
+    if t is None: return fail('thread_tree_shape', args=a)
     pts = t['children'][0]['points']
     zmin = min(p[2] for p in pts)
     if abs(zmin) > 1e-12: return fail('thread_starts_at_z0', args=a, zmin=zmin)
